@@ -721,6 +721,7 @@ package gojq
 
 // min_by picks the first minimal key, max_by the last maximal one.
 //@ func minMaxBy(vs, xs []any, isMin bool) (r any)
+//@   flag heapvalid
 //@   property C11
 //@   using cmpv_range cmpv_antisym cmpv_trans
 //@   requires len(vs) == len(xs)
